@@ -203,11 +203,11 @@ pub fn gen_arith(rng: &mut Rng) -> Op {
         15 => Op::new(&format!("{}.gcd", t)).a(a).b(b).dst(d).form(form(rng)),
         16 => Op::new(&format!("{}.gcdext", t)).a(a).b(b).dst(d).form(form(rng)),
         17 => Op::new(&format!("{}.sum", t)).dst(d).form(rng.below(4)),
-        18 => Op::new(rng.pick(&["i.neg", "i.abs", "i.uabs", "i.not", "i.signum", "u.neg", "u.sqrtrem", "u.cbrt"]))
+        18 => Op::new(rng.pick(&["i.neg", "i.abs", "i.uabs", "i.not", "i.signum", "u.neg", "u.sqrtrem", "u.cbrt", "i.cbrt"]))
             .a(a)
             .dst(d)
             .form(form(rng)),
-        _ => Op::new(rng.pick(&["i.mulsign", "u.mulsign"])).a(a).dst(d).n(rng.below(2) as i64).form(rng.below(2)),
+        _ => Op::new(rng.pick(&["i.mulsign", "u.mulsign"])).a(a).dst(d).n(rng.below(2) as i64).form(rng.below(3)),
     }
 }
 
@@ -359,8 +359,8 @@ pub fn prim_value(rng: &mut Rng) -> (i64, i64) {
 pub fn gen_mixed(rng: &mut Rng) -> Op {
     let (a, b, d) = (slot(rng), slot(rng), slot(rng));
     match rng.below(4) {
-        0 => Op::new(&format!("iu.{}", rng.pick(&BIN))).a(a).b(b).dst(d).form(rng.below(7)),
-        1 => Op::new(&format!("ui.{}", rng.pick(&["add", "sub", "mul", "div", "rem", "or", "xor"]))).a(a).b(b).dst(d).form(rng.below(5)),
+        0 => Op::new(&format!("iu.{}", rng.pick(&["add", "sub", "mul", "div", "rem", "and", "or", "xor", "divrem", "gcd", "gcdext"]))).a(a).b(b).dst(d).form(rng.below(7)),
+        1 => Op::new(&format!("ui.{}", rng.pick(&["add", "sub", "mul", "div", "rem", "or", "xor", "and", "divrem", "gcd", "gcdext"]))).a(a).b(b).dst(d).form(rng.below(7)),
         _ => {
             let fam = if rng.chance(1, 2) { "up" } else { "ip" };
             let (n, m) = prim_value(rng);
